@@ -412,6 +412,20 @@ func (in *interp) nextRecord() (string, bool) {
 	}
 }
 
+func (in *interp) tryNextRecord() (line string, ok bool, failed bool) {
+	defer func() {
+		if r := recover(); r != nil {
+			if _, isErr := r.(ctlError); isErr {
+				failed = true
+				return
+			}
+			panic(r)
+		}
+	}()
+	line, ok = in.nextRecord()
+	return line, ok, false
+}
+
 func (in *interp) setFile(name string) {
 	in.filename = NumStr(name)
 	in.fnr = Num(0)
@@ -1336,7 +1350,10 @@ func (in *interp) getline(n *awk.Node) Value {
 		f.pos++
 		in.res.Trace["getline-file"]++
 	default:
-		rec, ok := in.nextRecord()
+		rec, ok, failed := in.tryNextRecord()
+		if failed {
+			return Num(-1) // e.g. the next file operand cannot be opened: getline reports -1, the run goes on
+		}
 		if !ok {
 			return Num(0)
 		}
@@ -1614,6 +1631,9 @@ func orderInsensitive(loop *awk.Node) bool {
 	body := loop.Body
 	if len(body) > 0 && body[len(body)-1].K == awk.Break {
 		for _, s := range body[:len(body)-1] {
+			if s.K == awk.If && !mentions(s.A[0], loop.Name) && checkExpr(s.A[0]) && onlyControl(s.Body) && onlyControl(s.Else) {
+				continue // leaves the loop (and more) on a condition that does not depend on the key
+			}
 			if s.K == awk.ExprStmt {
 				e := awk.StripGroups(s.A[0])
 				if e.K == awk.Assign && e.Op == "=" && e.A[0].K == awk.Var && e.A[0].Name != loop.Name && (e.A[1].K == awk.Num || e.A[1].K == awk.Str) {
@@ -1631,6 +1651,31 @@ func orderInsensitive(loop *awk.Node) bool {
 		checkStmt(s, true)
 	}
 	return ok
+}
+
+func mentions(e *awk.Node, name string) bool {
+	found := false
+	awk.Walk(e, func(m *awk.Node) {
+		if m.K == awk.Var && m.Name == name {
+			found = true
+		}
+	})
+	return found
+}
+
+func onlyControl(l []*awk.Node) bool {
+	for _, s := range l {
+		switch s.K {
+		case awk.Next, awk.Nextfile, awk.Break:
+		case awk.Exit, awk.Return:
+			if s.A[0] != nil && s.A[0].K != awk.Num {
+				return false
+			}
+		default:
+			return false
+		}
+	}
+	return true
 }
 
 var _ = errors.New
